@@ -38,7 +38,8 @@ CHECKS = {
         "relay/boolean handler lists; BFS over a use_wait_queue mode started by a queue event with waiting handlers "
         "on the outer and on the mode's own queue event.",
    note="Trusted: virtual loop, monitors in props/c02.py. Bounds: <=3/4 handlers per queue event, one nested and one "
-        "concurrent queue event; relay/boolean lists <=4/5 handlers over 7 return values (incl. a blocking result).",
+        "concurrent queue event; relay/boolean lists <=4/5 handlers over 7 return values (incl. a blocking result), posted with and "
+        "without kwargs, handlers with and without registered kwargs.",
    technique="explicit-state BFS of the implementation (replay + fork snapshots) + exhaustive enumeration",
    ref="3/C02"),
  "C18": dict(cat="model_checking",
@@ -111,7 +112,9 @@ CHECKS = {
         "logical colour and the last brightness commanded to every hardware channel compared at rest; interpolation "
         "checked for fades started from rest.",
    note="Trusted: virtual loop, reference stack in props/c09.py. Which of two equal-priority entries wins is not judged; "
-        "no colour-correction profile; BFS depth 3 (quick) / 4 (thorough), batched search depth 6 / 8.",
+        "no colour-correction profile; BFS depth 3 (quick) / 4 (thorough), batched search depth 6 / 8 (with every update held by "
+        "the environment, and with updates completing at once plus a settle macro step). At every instant the logical colour "
+        "must lie within the bounding box of the entries of the stack and of those still fading out.",
    technique="explicit-state BFS of the implementation with a reference model (replay + fork snapshots)",
    ref="3/C09"),
  "C10": dict(cat="model_checking",
@@ -123,7 +126,8 @@ CHECKS = {
         "decide the enabled state, and no flipper/autofire rule or energised flipper coil exists while no ball is in play.",
    note="Trusted: virtual platform rule table + call counting wrappers, wiring table in props/c10.py; the virtual platform "
         "gets a recording set_delayed_pulse_on_hit_rule. No ball search / real ball devices in this machine; BFS depth "
-        "6 (quick) / 7 (thorough) per device group with fingerprint merge audit.",
+        "6 (quick) / 7 (thorough) per device group (flippers by request, autofires, and the EOS flipper through its physical "
+        "button / end-of-stroke switches) with fingerprint merge audit.",
    technique="explicit-state BFS of the implementation with a reference model (replay + fork snapshots)",
    ref="3/C10"),
  "C07": dict(cat="model_checking",
@@ -134,8 +138,9 @@ CHECKS = {
         "(stop handler and devices present), and equality of the event/switch/delay/timer/device/light registries with "
         "the pre-start snapshot whenever everything has stopped.",
    note="Trusted: virtual loop, registry snapshot in props/c07.py (reads registries through their query attributes). "
-        "Mode m1 has devices, config players and custom code; m2 uses a wait queue. BFS depth 5 (quick) / 6 (thorough) with "
-        "fingerprint merge audit.",
+        "Mode m1 has devices (incl. a ball save enabled by its events_when_stopped), config players and custom code with a 1 s "
+        "delay that must never fire after a stop request; m2 uses a wait queue and can be started with a priority override. "
+        "BFS depth 5 (quick) / 6 (thorough) with fingerprint merge audit.",
    technique="explicit-state BFS of the implementation with automaton + registry-diff oracles (replay + fork snapshots)",
    ref="3/C07"),
  "C04": dict(cat="model_checking",
@@ -172,7 +177,8 @@ CHECKS = {
    note="Trusted: virtual loop, Grammar automaton in props/c06.py. Requests where the statement is silent (extra ball after "
         "an end-game request, tilt while already tilted) are not judged. BFS depth 5 on 3 configurations (quick) / 6 on 5 "
         "(thorough) with fingerprint merge audit, plus a focused long-game search (start / drain / extra ball / end ball / "
-        "time, holding player_turn_starting) to depth 9 on 2 (quick) / 11 on 4 configurations (thorough).",
+        "time, holding player_turn_starting) to depth 9 on 2 (quick) / 11 on 4 configurations (thorough). A slam tilt forfeits "
+        "pending extra balls; what an end_game request does to them is not judged.",
    technique="explicit-state BFS of the implementation with a grammar automaton oracle (replay + fork snapshots)",
    ref="3/C06"),
  "C17": dict(cat="model_checking",
@@ -183,7 +189,8 @@ CHECKS = {
         "on the schedule grid (no drift after late wake-ups), a stopped show leaves no light entry under its context; "
         "plus one long run (1000 loops, every 7th timer late) against the ideal grid.",
    note="Trusted: virtual loop, RefShow in props/c17.py. What resume/advance/step_back do to a show still waiting for its "
-        "sync start is not judged. BFS depth 5 (quick) / 6 (thorough), at most two shows at a time.",
+        "sync start, or holding on a step of duration -1, is not judged. BFS depth 5 (quick) / 6 (thorough), at most two shows at a "
+        "time; a nested-show search (looping parent, every run of the nested show must look like the first) to depth 8 / 12.",
    technique="explicit-state BFS of the implementation with a reference schedule (replay + fork snapshots)",
    ref="3/C17"),
  "C11": dict(cat="model_checking",
@@ -194,7 +201,8 @@ CHECKS = {
         "their previous ball ended; the first ball of a game starts from the configured initial values; every change of "
         "score/lives posts exactly one player_<var> event with the right value, prev_value, change and player_num.",
    note="Trusted: virtual loop, snapshots through public attributes. Timer ticks are checked for isolation only. BFS depth "
-        "7 (quick) / 8 (thorough) with fingerprint merge audit.",
+        "6 (quick) / 7 (thorough) over all operations, 9 / 11 over the timer operations, 10 / 12 over lane shots rotated by a "
+        "shot group (same own history of lane operations => same lanes for every player), with fingerprint merge audit.",
    technique="explicit-state BFS of the implementation with differential (before/after, turn-to-turn) oracles",
    ref="3/C11"),
  "C14": dict(cat="model_checking",
